@@ -264,7 +264,8 @@ def unpack(chk):
     chk.check(unparse(lp.iter) in (f'range(len({data}))', 'range(N)') and _is_len(fn, 'N', data) or unparse(lp.iter) == f'range(len({data}))'
               or (unparse(lp.iter) == data and isinstance(lp.target, ast.Name) and lp.target.id == rec),
               'C15-R2', P9, '_unpack_pack9', 'one loop iteration per record, in stream order', unparse(lp.iter),
-              f'record loop is {unparse(lp.iter)}', node=lp)
+              f'record loop is {unparse(lp.iter)} and its bound is not (only) the number of records of the stream: records are skipped -- e.g. a bound clipped to the rows of a supplied '
+              'output stops n_headers records early, because header records take a stream slot but no output row', node=lp)
 
     from ..core.srcmodel import early_exits
     ex = early_exits(lp)
@@ -426,10 +427,11 @@ def unpack(chk):
 
 
 def _is_len(fn, name, arr):
-    for s in fn.body:
-        if isinstance(s, ast.Assign) and isinstance(s.targets[0], ast.Name) and s.targets[0].id == name:
-            return unparse(s.value) == f'len({arr})'
-    return False
+    """`name` is bound exactly once in the function, at top level, to len(arr) (a later `if ...: N = min(N, ...)` makes the loop stop early:
+    header records use a stream slot but no output row, so a bound taken from an output's length drops the last records -- seed C15g)."""
+    stores = [n for n in walk_no_nested(fn) if isinstance(n, ast.Name) and n.id == name and isinstance(n.ctx, ast.Store)]
+    tops = [s for s in fn.body if isinstance(s, ast.Assign) and len(s.targets) == 1 and isinstance(s.targets[0], ast.Name) and s.targets[0].id == name]
+    return len(stores) == 1 and len(tops) == 1 and unparse(tops[0].value) in (f'len({arr})', f'{arr}.shape[0]')
 
 
 def wrapper(chk):
